@@ -38,6 +38,16 @@ enum View<T> {
     Panic,
 }
 
+impl View<u16> {
+    fn map_u128(self) -> View<u128> {
+        match self {
+            View::Ok(x) => View::Ok(x as u128),
+            View::Err(e) => View::Err(e),
+            View::Panic => View::Panic,
+        }
+    }
+}
+
 impl<T> View<T> {
     fn show(&self, f: impl Fn(&T) -> String) -> String {
         match self {
@@ -321,29 +331,27 @@ fn oracle_ack(b: &[u8], r: &Result<Result<AckOut, &'static str>, ()>) -> Option<
             None
         }
     };
-    match &a.wm {
-        View::Panic => return v("panic-view", "scd_as::<WriteMem> panicked".into()),
-        View::Ok(l) => {
-            if u16at(b, 12) != Some(0) || u16at(b, 14) != Some(*l) {
-                return v("field", "WriteMem length is not (reserved=0, u16 at 14)".into());
+    // WriteMemAck / PendingAck SCD: reserved u16 = 0 | value u16 — 4 bytes that must lie inside
+    // the SCD the header declares (scd_len >= 4) and inside the buffer.
+    let ref_value: Option<u16> = if n >= 4 { res_u16(12) } else { None };
+    for (name, got) in [("WriteMem", a.wm.clone().map_u128()), ("Pending", a.pe.clone())] {
+        match got {
+            View::Panic => return v("panic-view", format!("scd_as::<{name}> panicked")),
+            View::Ok(x) => {
+                if n < 4 {
+                    return v(
+                        "value-view-outside-declared-scd",
+                        format!("{name} view returned {x} although the header declares an SCD of only {n} byte(s): the value was read from bytes outside the declared SCD"),
+                    );
+                }
+                if ref_value.map(|r| r as u128) != Some(x) {
+                    return v("field", format!("{name} value is not (reserved=0, u16 at 14)"));
+                }
             }
-        }
-        View::Err(_) => {
-            if res_u16(12).is_some() {
-                return v("rejects-conforming-view", "WriteMem view rejected a well-formed SCD".into());
-            }
-        }
-    }
-    match &a.pe {
-        View::Panic => return v("panic-view", "scd_as::<Pending> panicked".into()),
-        View::Ok(ms) => {
-            if u16at(b, 12) != Some(0) || u16at(b, 14).map(|x| x as u128) != Some(*ms) {
-                return v("field", "Pending timeout is not (reserved=0, u16 ms at 14)".into());
-            }
-        }
-        View::Err(_) => {
-            if res_u16(12).is_some() {
-                return v("rejects-conforming-view", "Pending view rejected a well-formed SCD".into());
+            View::Err(_) => {
+                if ref_value.is_some() {
+                    return v("rejects-conforming-view", format!("{name} view rejected a well-formed SCD"));
+                }
             }
         }
     }
